@@ -167,7 +167,7 @@ def render(cases, route):
                 pool.append(o)
     lines = ['print "@@POOL"']
     name = {}
-    if route == "list":
+    if route in ("list", "elem"):
         by_kind = {}
         for o in pool:
             by_kind.setdefault(o[0], []).append(o)
@@ -178,6 +178,10 @@ def render(cases, route):
             name[vkey(o)] = "v%d" % i
             pos = [vkey(x) for x in by_kind[o[0]]].index(vkey(o))      # by bits: -0.0 == 0.0 for tuples
             lines.append("v%d = ls_%s[%d]" % (i, o[0], pos))
+            if route == "elem":
+                # round 8: the operand of the operator IS the element place (`-ls[3]`, `ls[1] * ls[2]`), not a copy of it
+                elem_name = name.setdefault("@elem", {})
+                elem_name[vkey(o)] = "ls_%s[%d]" % (o[0], pos)
     else:
         for o in pool:
             i = index[vkey(o)]
@@ -214,6 +218,11 @@ def render(cases, route):
             if route == "llit" and literalable(a):
                 la = N.source(*a)
             lines.append("print " + expr_text(op, la, lb))
+    elif route == "elem":
+        en = name["@elem"]
+        lines.append('print "@@CASES"')
+        for op, a, b in cases:
+            lines.append("print " + expr_text(op, en[vkey(a)], en[vkey(b)] if b is not None else None))
     else:
         lines.append('print "@@CASES"')
         for op, a, b in cases:
@@ -689,6 +698,7 @@ def run(ctx):
     other = [c for c in other if expected(c)[0] != "undefined"]
     jobs += make_jobs(other, "param")
     jobs += make_jobs([c for c in other if c[1][0] != "bool"], "list")
+    jobs += make_jobs([c for c in other[::2] if c[1][0] != "bool"] + [c for c in chosen if c[2] is None and c[1][0] != "bool"], "elem")
     # literal routes: `variable op literal` and `literal op variable`
     lit_cases = [c for c in literal_route_extra() if expected(c)[0] != "undefined"]
     lit_cases += [c for c in (sliced[::5] if ctx.quick else chosen[::2]) if c[2] is not None and expected(c)[0] != "undefined"
